@@ -128,16 +128,23 @@ def St.popEdge (env : Env) (s : St) (n : Node) : St :=
   | some t => s.addEdge (if env.cached n.1 then .elem n else .obj n.1) (.elem t)
   | none => if env.cached n.1 then s.addNode (.elem n) else s
 
-/-- reference part of `CallStack.pop`: the reads made by this frame become edges of the
-reference graph -/
-def St.drainRefs (s : St) (n : Node) : St :=
-  { s with refstack := (takeRefs s.refstack s.stack.length).2,
-           rg := s.rg ++ (((takeRefs s.refstack s.stack.length).1.map (fun r => (r, n))).eraseDups).filter
-                  (fun e => !s.rg.contains e) }
+/-- reference part of `CallStack.pop`: the reads made by the frame of a cached cells become
+edges of the reference graph; those of an uncached cells are handed over to the caller's
+frame (so that they end up with the nearest cached caller), or dropped when there is none -/
+def St.drainRefs (env : Env) (s : St) (n : Node) : St :=
+  if env.cached n.1 then
+    { s with refstack := (takeRefs s.refstack s.stack.length).2,
+             rg := s.rg ++ (((takeRefs s.refstack s.stack.length).1.map (fun r => (r, n))).eraseDups).filter
+                    (fun e => !s.rg.contains e) }
+  else if s.stack.length > 0 then
+    { s with refstack := (takeRefs s.refstack s.stack.length).2 ++
+        ((takeRefs s.refstack s.stack.length).1.reverse.map (fun r => (s.stack.length - 1, r))) }
+  else
+    { s with refstack := (takeRefs s.refstack s.stack.length).2 }
 
 /-- `CallStack.pop` -/
 def St.pop (env : Env) (s : St) (n : Node) : St :=
-  ((s.dropFrame).popEdge env n).drainRefs n
+  ((s.dropFrame).popEdge env n).drainRefs env n
 
 /-- `CallStack.rollback` -/
 def St.rollback (s : St) (n : Node) : St :=
